@@ -215,3 +215,8 @@ Definition w_hang_cut (c : wind) (len : Z) : bool :=
   ((12 <=? len) && (len <=? w_rec_start c 1))
   || existsb (fun i => (w_rec_start c i + 4 <=? len) && (len <=? w_rec_start c (i + 1)))
              (map Z.of_nat (seq 1 (Z.to_nat (2 * w_nz c)))).
+
+(* ---- the record reader (wind/Read.py): what read_into unpacks at a byte position (no id fields: cells right after
+        the marker). Its seek arithmetic is TRANSLATED: Gen/Camx.v wr_layerrecords / wr_timerecords / wr_recordposition *)
+Definition w_cells_at (ws : list word) (pos ncell : Z) : list word :=
+  firstn (Z.to_nat ncell) (skipn (Z.to_nat (pos / 4 + 1)) ws).
